@@ -85,9 +85,12 @@ INEXACT = [3, -3, 5, -5, 7, -7, 9, -9, 11, -11, 6, 10, 13]
 def gen_lp_inexact(rng):
     """Integer LPs whose float pivots are inexact (coefficients 3, 5, 7, 9, 11, ... give thirds / sevenths after one pivot)
     combined with the forced-degeneracy shapes: a base row together with its opposite (an equality written as two
-    inequalities, or an infeasible / slack pair with gap -1 / +1), duplicates, scaled duplicates, rows with rhs 0."""
-    n = rng.choice([1, 2, 2, 2, 3, 3, 4])
+    inequalities, or an infeasible / slack pair with gap -1 / +1), duplicates, scaled duplicates, rows with rhs 0.
+    Mostly feasible by construction (rhs = row . x0 for a small x0 >= 0) so that linearly dependent rows turn into
+    0 = 0 rows that only carry round-off, and phase 2 has work left."""
+    n = rng.choice([1, 2, 2, 2, 3, 3, 3, 4])
     pz = rng.choice([0.0, 0.0, 0.25, 0.4])
+    x0 = [rng.choice([0, 0, 1, 1, 2, 3]) for _ in range(n)] if rng.random() < 0.75 else None
 
     def coef():
         if rng.random() < pz:
@@ -100,25 +103,31 @@ def gen_lp_inexact(rng):
             r[rng.randrange(n)] = rng.choice(INEXACT)
         return r
 
+    def rhs(r):
+        if x0 is None:
+            return rng.choice([0, 0, 1, -1, 2, 3, -3, rng.randint(-6, 6)])
+        return sum(a * x for a, x in zip(r, x0))
+
     A, b = [], []
-    for _ in range(rng.choice([1, 1, 2])):
+    for _ in range(rng.choice([1, 1, 1, 2])):
         base = row()
-        t = rng.choice([0, 0, 1, -1, 2, 3, -3, rng.randint(-6, 6)])
+        t = rhs(base)
         A.append(base); b.append(t)
         shape = rng.random()
         if shape < 0.45:      # opposite row: equality (gap 0), infeasible pair (gap -1) or band (gap +1, +2)
-            gap = rng.choice([0, 0, 0, -1, 1, 2])
+            gap = rng.choice([0, 0, 0, 0, -1, 1, 2])
             A.append([-a for a in base]); b.append(-t + gap)
         elif shape < 0.6:     # duplicate
             A.append(list(base)); b.append(t if rng.random() < 0.7 else t + rng.choice([-1, 1]))
-        elif shape < 0.8:     # scaled duplicate / scaled opposite
+        elif shape < 0.85:    # scaled duplicate / scaled opposite
             f = rng.choice([2, 3, -2, -3])
-            A.append([f * a for a in base]); b.append(f * t + rng.choice([0, 0, 0, 1, -1]))
+            A.append([f * a for a in base]); b.append(f * t + rng.choice([0, 0, 0, 0, 1, -1]))
         if rng.random() < 0.3:  # and once more: three-fold degeneracy
             f = rng.choice([1, -1, 2])
-            A.append([f * a for a in base]); b.append(f * t + (0 if f != -1 else rng.choice([0, 1])))
-    for _ in range(rng.choice([0, 0, 1, 1, 2])):
-        A.append(row()); b.append(rng.choice([0, 0, 1, 2, 3, -2, rng.randint(-5, 8)]))
+            A.append([f * a for a in base]); b.append(f * t + (0 if f != -1 else rng.choice([0, 0, 1])))
+    for _ in range(rng.choice([0, 0, 0, 1, 1, 2])):
+        r = row()
+        A.append(r); b.append(rhs(r) + rng.choice([0, 0, 1, 2, 4]) if x0 is not None else rng.choice([0, 0, 1, 2, 3, -2, 8]))
     while len(A) > 6 or len(A) + n > 10:
         k = rng.randrange(len(A)); del A[k]; del b[k]
     if rng.random() < 0.5:
@@ -126,7 +135,7 @@ def gen_lp_inexact(rng):
         A = [A[i] for i in order]; b = [b[i] for i in order]
     c = [rng.choice([0, 1, -1, 2, -2, 3, -3, 5, -7]) for _ in range(n)]
     minimize = rng.random() < 0.5
-    max_iter = None if rng.random() < 0.9 else rng.randint(2, 8)
+    max_iter = None if rng.random() < 0.92 else rng.randint(2, 8)
     return {"c": c, "A": A, "b": b, "minimize": minimize, "max_iter": max_iter}
 
 
@@ -392,6 +401,35 @@ def gen_ipm(rng):
     return {"c": c, "A": A, "b": b, "minimize": minimize}, kind
 
 
+def gen_ipm_large(rng):
+    """Large magnitudes (|b| up to ~200-600, coefficients 1..9): a level set a.x = t squeezed between a '<=' row and a
+    '>=' row (both possibly scaled), infeasible by a small margin (well below 2 % of max|b|), its feasible twin, or
+    degenerate (margin 0); optional far-away box / cover rows."""
+    n = rng.choice([1, 1, 2, 2, 3])
+    a = [rng.randint(1, 9) for _ in range(n)]
+    t = rng.randint(15, 200)
+    f1, f2 = rng.choice([1, 1, 2, 3]), rng.choice([1, 1, 2, 3])
+    e1, e2 = rng.choice([0, 0, 1, 1, 2]), rng.choice([0, 1, 1, 2, 3])
+    kind = rng.choice(["near-infeasible", "near-infeasible", "near-feasible", "degenerate"])
+    sgn = {"near-infeasible": -1, "near-feasible": 1, "degenerate": 0}[kind]
+    if kind == "near-infeasible" and e1 == 0 and e2 == 0:
+        e2 = 1
+    A = [[f1 * v for v in a], [-f2 * v for v in a]]
+    b = [f1 * t + sgn * e1, -f2 * t + sgn * e2]
+    for _ in range(rng.choice([0, 0, 1, 2])):
+        if rng.random() < 0.5:
+            j = rng.randrange(n)
+            A.append([1 if q == j else 0 for q in range(n)]); b.append(rng.randint(t // 2, 2 * t) + 50)
+        else:
+            r = [rng.randint(1, 9) for _ in range(n)]
+            A.append(r); b.append(sum(r) * t + rng.randint(0, 50))
+    if rng.random() < 0.4:
+        order = list(range(len(A))); rng.shuffle(order)
+        A = [A[i] for i in order]; b = [b[i] for i in order]
+    c = [rng.randint(-5, 5) for _ in range(n)]
+    return {"c": c, "A": A, "b": b, "minimize": rng.random() < 0.5}, "large-" + kind
+
+
 _IPM_STATE = []
 
 
@@ -435,6 +473,12 @@ def run_ipm(case):
 
 
 def judge_ipm(case, out, orc):
+    """OPTIMAL: point feasible (1e-6 relative) and objective = exact optimum (1e-5 relative), exact verdict must be OPTIMAL.
+    FEASIBLE: exactly the documented clause, ABSOLUTE 0.01:  max_i (A x - b)_i^+ <= 0.01  and  x >= 0.  This is what the
+    code's own test implies and no more: it requires || A x + s - b ||_2 < 0.01 for its slack vector s, every s_i is clamped
+    >= eps > 0 and the returned x_j is max(0, x_j); hence (A x - b)_i = r_i - s_i < 0.01 for every row.  (Nothing is demanded
+    of the objective of a FEASIBLE answer.)  A FEASIBLE answer on an LP without feasible points necessarily violates some
+    row; it is a violation exactly when that violation exceeds 0.01."""
     if "fail" in out:
         return f"solve_lp_interior did not return: {out['fail']}"
     st = out["status"]
@@ -535,17 +579,25 @@ def _in_overflow_class(out, orc):
 
 def run(ctx: Ctx):
     ctx.rule = ("random integer LPs (m,n <= 5 quick, <= 7 thorough; data -5..5; duplicate/parallel/zero rows, zero columns, rhs with zeros and "
-                "negatives, ratio-test ties, box and lower-bound rows; min and max; max_iter default or 0..6); non-trivial = the run made "
+                "negatives, ratio-test ties, box and lower-bound rows; min and max; max_iter default or 0..6) + an inexact-pivot family "
+                "(coefficients 3,5,7,9,11,6,10,13 with opposite / duplicate / scaled-duplicate rows, rhs 0, mostly feasible by construction) "
+                "+ interior-point families (tiny, boxed, infeasible, unbounded, large-magnitude near-(in)feasible twins); non-trivial = the run made "
                 ">= 1 pivot; distinct = canonical JSON of the input; phase-1 / degenerate-tie / artificial-left-basic counts in histograms")
     ctx.proof_step(["C03"])
+    if (VERIF / "coq" / "Props" / "C03_deep.v").exists(): ctx.proof_step(["C03"], props_file="Props/C03_deep.v")
     ctx.notes += [
         "floats are idealised as exact rationals: the model runs in Q with eps = 1e-10; discrete decisions (status, pivots, iterations) "
         "are compared exactly, solution/objective within 1e-7 relative",
         "theorems are for eps = 0; on every run the eps0_* lemmas check that eps = 0 and eps = 1e-10 take identical decisions on the explored "
         "inputs (cases where they differ are counted in histogram 'eps0_differs' and excluded from the claim)",
+        "correspondence (corr_*) uses the exact-Q model with eps = 1e-10 as the reference for the float code only on eps-robust cases "
+        "(same status / pivots / iterations of the exact run for eps = 0, 1e-10, 1e-7: no compared tableau quantity strictly between 0 and "
+        "1e-7 where it matters); fragile cases are counted in histogram 'eps_fragile_skipped' and only judged by the vertex-enumeration oracle",
         "MAX_ITER answers are exempt from the verdict oracle (allowed by the property); Bland termination is not proved",
         "interior point: the gate is evaluated exactly on the captured floats with eps' = 1e-8*(1+1e-6) (float rounding of the residual "
         "norms at the threshold); C03_ipm_gate is parametric in eps",
+        "interior point FEASIBLE clause judged: max_i (A x - b)_i^+ <= 0.01 absolute and x >= 0 (follows from the code's documented test "
+        "||A x + s - b||_2 < 0.01 with s > 0); large-magnitude near-(in)feasible twins exercise it (histogram ipm_status, kinds large-*)",
         "interior point: Newton/Cholesky step not modelled; only the convergence gate is (Ipm.gate), evaluated on the captured final iterate",
         "interior point: the solver's max(eps, .) clamp leaves residuals ~ sqrt(k)*eps >= eps, so it almost never reaches its OPTIMAL gate "
         "(only on ~1x1 / 1x2 LPs; everything else runs all 100 iterations and answers FEASIBLE or MAX_ITER) - see histogram ipm_status; "
@@ -555,7 +607,9 @@ def run(ctx: Ctx):
     ]
     big = ctx.tier == "thorough"
     n_rand = ctx.budget(420, 9000)
-    cases = _corpus() + [dict(e) for e in EDGE_CASES] + [gen_lp(ctx.rng, big) for _ in range(n_rand)]
+    n_inexact = ctx.budget(400, 6000)
+    cases = (_corpus() + [dict(e) for e in EDGE_CASES] + [gen_lp(ctx.rng, big) for _ in range(n_rand)]
+             + [gen_lp_inexact(ctx.rng) for _ in range(n_inexact)])
     # the oracle enumerates C(m+n, m) bases: keep it to m+n <= 10 (quick) / 14 (thorough) - the generator obeys this
     results = pmap(_work, cases)
     coq_cases, metas = [], []
@@ -582,8 +636,13 @@ def run(ctx: Ctx):
         coq_cases.append(coq_case(case, out))
         metas.append((case, out, orc))
 
-    failing = ctx.coq_check("corr", IMPORTS, "lp_case", "corr_check eps_default tol7", coq_cases, shard=100)
+    failing = ctx.coq_check("corr", IMPORTS, "lp_case", "corr_robust_check eps_default tol7", coq_cases, shard=100)
     disagree = [metas[i] for i in failing]
+    fragile = ctx.coq_check("robust", IMPORTS, "lp_case", "robust_check", coq_cases, shard=100)
+    ctx.count("eps_fragile_skipped", len(fragile), 1)
+    if fragile:
+        ctx.notes.append(f"{len(fragile)} explored case(s) are eps-fragile (the exact run decides differently for eps in {{0, 1e-10, 1e-7}}), e.g. "
+                         f"{metas[fragile[0]][0]}; skipped by the correspondence lemma, still judged by the oracle")
     diff0 = ctx.coq_check("eps0", IMPORTS, "lp_case", "eps0_check", coq_cases, shard=100)
     ctx.count("eps0_differs", len(diff0), 1)
     if diff0:
@@ -595,8 +654,9 @@ def run(ctx: Ctx):
 
     # ---- interior point
     check_malformed(ctx)
-    n_ipm = ctx.budget(160, 2000)
-    items = _corpus("ipm") + [gen_ipm(ctx.rng) for _ in range(n_ipm)]
+    n_ipm = ctx.budget(240, 2500)
+    n_large = ctx.budget(120, 1500)
+    items = _corpus("ipm") + [gen_ipm(ctx.rng) for _ in range(n_ipm)] + [gen_ipm_large(ctx.rng) for _ in range(n_large)]
     overflow_open = any(f.get("id") == KNOWN_IPM_OVERFLOW for f in ctx.open_findings())
     ipm_results = pmap(_work_ipm, items)
     gate_cases, gate_meta = [], []
